@@ -62,9 +62,12 @@ fn experiments() -> Vec<Exp> {
                 v.push(Exp::Flip { rate: Some(rate), container, len });
             }
         }
-        for len in [1usize, 2, 3, 8, 64] {
+        // very long genomes: a length that no longer fits a narrow integer /
+        // float conversion must still give exactly one expected flip
+        for len in [1usize, 2, 3, 8, 64, 300, 70_000, 300_000] {
             v.push(Exp::Flip { rate: None, container, len });
         }
+        v.push(Exp::Flip { rate: Some(0.001), container, len: 70_000 });
     }
     for (add, del) in [(0.1, 0.1), (0.3, 0.05), (0.5, 0.5), (0.9, 0.3), (0.09, 0.09 / 1.09), (1.0, 0.5), (0.5, 0.0)] {
         for len in [1usize, 5, 20] {
@@ -140,6 +143,8 @@ fn run_experiment(exp: &Exp, trials: u64, seed: u64) -> Option<Vec<Cell_>> {
     match exp {
         Exp::Flip { rate, container, len } => {
             let len = *len;
+            // keep the number of gene decisions bounded for very long genomes
+            let trials = if len > 1000 { (trials * 64 / len as u64).max(40) } else { trials };
             let p = match rate {
                 Some(r) => f64::from(*r),
                 None => 1.0 / len as f64,
